@@ -311,7 +311,7 @@ def FieldSpec.posAt (s : FieldSpec) (i : Nat) : Nat :=
 def mkFields : Nat → List FieldSpec → List Field
   | _, [] => []
   | pos, s :: ss =>
-    ⟨s.name, s.ftype, s.posAt pos, genTitleLines s.title s.name⟩
+    ⟨s.name, s.ftype, s.posAt pos, genTitleLines s.title s.name, false⟩
       :: mkFields (pos + 1) ss
 
 def hasDup : List (List Char) → Bool
@@ -335,15 +335,20 @@ def ctorCols (fields : List Field) : List PCol → Except Err (List Col)
         let rest ← ctorCols fields ps
         .ok (c :: rest)
 
+/-- one field per distinct name, in order of first appearance; the value is `getattr(record, name)` -/
+def attrFields : List (List Char) → List Field
+  | [] => []
+  | n :: ns => ⟨n, .dflt, 0, [Val.str n], true⟩ :: (attrFields ns).filter (·.name ≠ n)
+
 /-- `"col_1"`, `"col_2"`, … -/
 def colNFields : Nat → Nat → List Field
   | _, 0 => []
   | pos, n + 1 =>
-    ⟨Gen.C12.colPrefix ++ natToDec (pos + 1), .dflt, pos, [Val.str (Gen.C12.colPrefix ++ natToDec (pos + 1))]⟩
+    ⟨Gen.C12.colPrefix ++ natToDec (pos + 1), .dflt, pos, [Val.str (Gen.C12.colPrefix ++ natToDec (pos + 1))], false⟩
       :: colNFields (pos + 1) n
 
 /-- `PPTable(records, …)`; `.error .outOfFuel` marks forms of the call the model does not cover
-(field-less tables with explicit columns, i.e. value paths) -/
+(explicit value paths `name<-path`, numeric field names without `fields`) -/
 def mkTable (a : CtorArgs) : Except Err Tbl := do
   let p ← parseFmt (match a.fmt with | some s => s | Option.none => [])
   let (limF, limL) := match p.vis with
@@ -363,11 +368,18 @@ def mkTable (a : CtorArgs) : Except Err Tbl := do
         | _ => .ok (fields, fields.map dfltCol)
     | Option.none =>
       match p.cols with
-      | .explicit _ => .error .outOfFuel
+      | .explicit cs =>
+        -- the fields are those the column descriptions name, each read from the record by its *name*
+        -- (value paths proper, and names that look like numbers, are not modelled)
+        if cs.any (fun c => c.valuePath.isSome || (parsePyInt c.fieldName).isSome) then .error .outOfFuel
+        else do
+          let fields := attrFields (cs.map (·.fieldName))
+          let cols ← ctorCols fields cs
+          .ok (fields, cols)
       | _ =>
         let fields := match a.records with
           | r :: _ => colNFields 0 r.length
-          | [] => [⟨Gen.C12.dummyField, .dflt, 0, [Val.str Gen.C12.dummyField]⟩]
+          | [] => [⟨Gen.C12.dummyField, .dflt, 0, [Val.str Gen.C12.dummyField], false⟩]
         .ok (fields, fields.map dfltCol) : Except Err (List Field × List Col))
   let (limF, limL) := match a.limits with
     | some l => l
@@ -404,6 +416,11 @@ def mkTableFromFmt (f : Fmt) (records : List Record) (limits : Option (Option In
 already negotiated and the skipped-lines flag stay as they are -/
 def removeCols (t : Tbl) (names : List (List Char)) : Tbl :=
   { t with fmt := { t.fmt with cols := t.fmt.cols.filter fun c => !names.contains c.field.name } }
+
+/-- `table.fmt.set_limits((a, b))` on the live format object: both limits are replaced, the
+skipped-lines flag is forgotten (fix 3b63cdc), negotiated widths stay -/
+def setLimits (t : Tbl) (a b : Option Int) : Tbl :=
+  { t with fmt := { t.fmt with limF := a, limL := b, anySkipped := Option.none } }
 
 /-- a column given as an object: `ReprColumn(field, fmt_modifier, break_by, min_width, max_width)` -/
 structure ColSpec where
